@@ -24,7 +24,10 @@ API_TIMEOUT = 40
 
 # ------------------------------------------------------------------ API k-sweep
 QUICK_PROGRAMS = ["init", "url", "msg", "idmap", "opts", "pair0:inproc", "reqrep:tcp", "pubsub:ipc",
-                  "subctx:inproc", "stats:inproc", "pipeline:ws", "ctx:inproc"]
+                  "subctx:inproc", "stats:inproc", "pipeline:ws", "ctx:inproc",
+                  # HTTP URIs beyond the inline buffer; WebSocket messages of several fragments whose
+                  # payload the receiver checks byte for byte (intact or not at all, for every k)
+                  "httpuri", "bigpair200k:ws", "bigreqrep70k:ws"]
 
 
 def api_run(binpath, prog, k):
@@ -96,7 +99,7 @@ def crash_site(err):
         fr = re.findall(r"^\s+#\d+ 0x[0-9a-f]+ in (\S+) (\S+)", err, re.M)
         loc = ""
         for fn, where in fr:
-            if "/src/" in where:
+            if "/src/" in where and "libsanitizer" not in where:
                 loc = "%s %s" % (fn, re.sub(r"^.*/src/", "src/", where))
                 break
         return "ASan %s in %s" % (kind, loc)
@@ -182,6 +185,10 @@ def api_key(sig):
         return "http-sconn-init-null-server"
     if "url.c" in w and "SEGV" in w:
         return "url-strdup-unchecked"
+    if "heap-use-after-free" in w and "nni_http_get_uri" in w:
+        return "http-set-uri-dangling"
+    if sig["verdict"] == "BADRV:-1001":
+        return "message-delivered-with-wrong-content"
     if "nni_list_append" in w and "nni_id_alloc" in inj:
         return "endpoint-id-alloc-dangling"
     if "idhash.c" in w and "id < (1ULL << 32)" in w:
